@@ -6,6 +6,7 @@ mod gen2;
 mod laws;
 mod ops;
 mod ops19;
+mod typed;
 mod wire;
 
 use biodivine_boolean_functions::bdd::Bdd;
